@@ -67,7 +67,37 @@ Definition init_of (ps : list prog) : lstate := map (fun p => (p, [])) ps.
 (** [edges]: (outer, inner) — a lock of class [inner] may be acquired while one
     of class [outer] is held. The table is consistent with a ranking when every
     class is ranked and every edge goes strictly upwards. *)
-Definition edges_ok (rank_of : string -> option nat) (classes : list string) (edges : list (string * string * string)) : bool :=
+Definition str_eqb (a b : string) : bool := if string_dec a b then true else false.
+
+(** [exempt]: nestings the table lists only because calls through an interface
+    are resolved by method names (all implementers); each exemption is an
+    assumption about the code and is listed in the trusted base. *)
+Definition edges_ok (rank_of : string -> option nat) (exempt : list (string * string))
+           (classes : list string) (edges : list (string * string * string)) : bool :=
   forallb (fun c => match rank_of c with Some _ => true | None => false end) classes
   && forallb (fun e => match e with (a, b, _) =>
-                match rank_of a, rank_of b with Some x, Some y => x <? y | _, _ => false end end) edges.
+                existsb (fun x => str_eqb (fst x) a && str_eqb (snd x) b) exempt
+                || match rank_of a, rank_of b with Some x, Some y => x <? y | _, _ => false end end) edges.
+
+(** * The ranking chosen for pkg/upstream/transport
+
+    Transport mutexes first, then the per-connection wrappers, then the
+    pipelined connection's own locks. Two classes of one rank must never be
+    nested (if the regenerated table ever nests them, the check fails and the
+    ranking has to be revisited). *)
+Open Scope string_scope.
+Definition transport_rank (c : string) : option nat :=
+  if str_eqb c "PipelineTransport.m" then Some 0
+  else if str_eqb c "ReuseConnTransport.m" then Some 0
+  else if str_eqb c "lazyDnsConn.mu" then Some 1
+  else if str_eqb c "reusableConn.closeOnce" then Some 1
+  else if str_eqb c "reusableConn.m" then Some 1
+  else if str_eqb c "TraditionalDnsConn.closeOnce" then Some 2
+  else if str_eqb c "TraditionalDnsConn.queueMu" then Some 2
+  else None.
+
+(** A lazily dialled connection never wraps another lazily dialled connection:
+    its dial function returns a TraditionalDnsConn or a QUIC connection
+    (pkg/upstream/upstream.go). The table lists the nesting because
+    [lc.c.Close()] is a call through the DnsConn interface. *)
+Definition transport_exempt : list (string * string) := [("lazyDnsConn.mu", "lazyDnsConn.mu")].
